@@ -144,6 +144,12 @@ Qed.
 
 End Sub.
 
+Lemma firstn_app_len {A} (a b : list A) n : n = length a -> firstn n (a ++ b) = a.
+Proof. intros ->. rewrite firstn_app, Nat.sub_diag, firstn_all. cbn [firstn]. apply app_nil_r. Qed.
+
+Lemma skipn_app_len {A} (a b : list A) n : n = length a -> skipn n (a ++ b) = b.
+Proof. intros ->. rewrite skipn_app, Nat.sub_diag, skipn_all. reflexivity. Qed.
+
 Lemma map_sub {A B} (f : A -> B) o n l : map f (sub o n l) = sub o n (map f l).
 Proof. unfold sub. now rewrite skipn_map, firstn_map. Qed.
 
